@@ -21,8 +21,8 @@ from vt.oracles import constraint_semantics as CS
 
 ID = 'C06'
 TIERS = {
-    'quick': dict(shards=16, cases=170, watchdog_s=900),
-    'thorough': dict(shards=16, cases=8000, watchdog_s=7000),
+    'quick': dict(shards=16, cases=700, watchdog_s=900),
+    'thorough': dict(shards=16, cases=20000, watchdog_s=7000),
 }
 RULE = ('case = frame (1-4 columns, 1-60 rows, plain field names) + boundary-derived constraint set + epsilon + option '
         'subset + output format + stale-file history; 2 runs of tdda per case (verify, detect). Non-trivial = at least '
